@@ -69,6 +69,23 @@ structure GAttrIR where
   assigns : List GAssignIR
 deriving Repr, Inhabited
 
+structure SetDeclIR where
+  value : Int
+  labels : List (Nat × String)
+deriving Repr, Inhabited
+
+structure FeatDeclIR where
+  ids : List Nat
+  labels : List (Nat × String)
+  settings : List SetDeclIR
+  dflt : Option Int
+deriving Repr, Inhabited
+
+structure LangDeclIR where
+  code : Nat
+  values : List (Nat × Int)
+deriving Repr, Inhabited
+
 structure ProgIR where
   numGlyphs : Nat := 0
   numReal : Nat := 0
@@ -79,6 +96,9 @@ structure ProgIR where
   classDefs : Array Cls.ClassDef := #[]
   passes : List PassIRj := []
   gattr : Option GAttrIR := none
+  features : Option (List FeatDeclIR) := none
+  languages : List LangDeclIR := []
+  nameStart : Option Nat := none
 deriving Inhabited
 
 open Lean in
@@ -174,7 +194,34 @@ def parseProgIR (text : String) : Except String ProgIR := do
                   numAttrs := ← jNat (← gj.getObjVal? "numAttrs"),
                   spaceGlyphs := ← (← (← gj.getObjVal? "spaceGlyphs").getArr?).toList.mapM jNat,
                   assigns } : GAttrIR))
+  let labelsOf (x : Json) : Except String (List (Nat × String)) := do
+    let lj := x.getObjValD "labels"
+    if lj.isNull then pure [] else
+      (← lj.getArr?).toList.mapM fun p => do
+        let t ← p.getArr?
+        if t.size != 2 then throw "bad-input: label pair"
+        pure (← jNat t[0]!, ← t[1]!.getStr?)
+  let fj := j.getObjValD "features"
+  let features ← if fj.isNull then pure none else do
+    let l ← (← fj.getArr?).toList.mapM fun f => do
+      let ids ← (← (← f.getObjVal? "ids").getArr?).toList.mapM jNat
+      let settings ← (← (← f.getObjVal? "settings").getArr?).toList.mapM fun st => do
+        pure ({ value := ← (← st.getObjVal? "value").getInt?, labels := ← labelsOf st } : SetDeclIR)
+      let dj := f.getObjValD "default"
+      let dflt ← if dj.isNull then pure none else some <$> dj.getInt?
+      pure ({ ids, labels := ← labelsOf f, settings, dflt } : FeatDeclIR)
+    pure (some l)
+  let lgj := j.getObjValD "languages"
+  let languages ← if lgj.isNull then pure [] else
+    (← lgj.getArr?).toList.mapM fun l => do
+      let vals ← (← (← l.getObjVal? "values").getArr?).toList.mapM fun p => do
+        let t ← p.getArr?
+        if t.size != 2 then throw "bad-input: lang value pair"
+        pure (← jNat t[0]!, ← t[1]!.getInt?)
+      pure ({ code := ← jNat (← l.getObjVal? "code"), values := vals } : LangDeclIR)
+  let nameStart ← jOptNat (j.getObjValD "nameStart")
   return {
+    features, languages, nameStart,
     gattr,
     numGlyphs := ← jNat (← j.getObjVal? "numGlyphs"), numReal := ← jNat (← j.getObjVal? "numReal"),
     lb := ← jNat (← j.getObjVal? "lb"), phantom := ← jNat (← j.getObjVal? "phantom"),
